@@ -69,8 +69,11 @@ def gen(seed, tier):
         cfg = 'NODE mode=%d ndev=%d src=%d q=%d t0=%d%s %s' % (r.choice([1, 2, 4]), ndev, r.choice([0, 30, 200]), q, r.choice([5000, 4294967000]), r.choice(['', '', ' early=1']),
                                                             ' '.join('tx%d=%s' % (i, ','.join(map(str, FAST))) for i in range(ndev)))
         ops = []
+        claimed = []
         for _k in range(r.randint(5, 40)):
             x = r.random()
+            if claimed and _k > 0 and ops and ops[-1].startswith('S %d ' % claimed[-1]):
+                ops.pop()          # (a send of the claiming device: refused by the claim window, not a queue matter)
             if x < 0.23:
                 p = r.random()
                 pat = ''.join('1' if r.random() < p else '0' for _ in range(r.randint(0, 30)))
@@ -81,6 +84,11 @@ def gen(seed, tier):
                 ops.append('F')
             elif x < 0.45:
                 ops.append('P')          # a poll with frames waiting and the driver still refusing: nothing but the waiting frames is offered (seed C11-19)
+            elif x < 0.47 and ndev >= 1 and not claimed:
+                # an address claim produced while frames wait (StartAddressClaim): it takes its place in the queue like any other frame (seed
+                # C11-23); afterwards that device sends nothing but claims, so its later sends are left out of this history
+                claimed.append(r.randrange(ndev))
+                ops.append('C %d' % claimed[-1])
             elif x < 0.5:
                 # pass-through send (device index -1): the frame keeps the message's own source, also while it waits in the queue (seed C11-21)
                 ops.append(smsg(r, -1, r.choice(SINGLE + FAST), r.choice([8, 9, 20])).replace(' 0 255 0 ', ' %d 255 0 ' % r.choice([77, 5, 200]), 1))
@@ -135,6 +143,8 @@ def oracle(case, res):
     answers = []
     seq = {}
     mode = cfg['mode']
+    claiming = set()
+    NAME0 = 0xc0328200ffc00001
 
     def nxt():
         return answers.pop(0) if answers else True
@@ -159,6 +169,21 @@ def oracle(case, res):
             # (P: ParseMessages of an opened node without received frames, pending information or heartbeat: SendFrames and nothing else)
             if q > 0:
                 flush(exp)
+        elif o[0] == 'C' and len(o) > 1 and mode in (1, 2) and 0 <= int(o[1]) < ndev:
+            # StartAddressClaim: the claim frame (priority 6, PGN 60928 to 255, the NAME) goes the way of every frame: flush, then driver or queue
+            i = int(o[1])
+            f = (ref_can_id(6, 60928, own_addr(src0, i), 255), 8, list((NAME0 + i).to_bytes(8, 'little')))
+            claiming.add(i)
+            flushed = flush(exp) if q > 0 else True
+            sent = False
+            if flushed:
+                a = nxt()
+                exp.append(('tx',) + f + (a,))
+                sent = a
+            if not sent and len(pending) < cap:
+                pending.append(f)
+        elif o[0] == 'S' and max(int(o[1]), 0) in claiming:     # (pass-through sends count for device 0)
+            exp.append(('res', False))     # the claim window (C04): refused without touching the queue
         elif o[0] == 'M':
             mode = int(o[1])               # run-time SetMode (the cases keep the source address): the queue is untouched
         elif o[0] == 'S' and mode == 0:
